@@ -365,6 +365,12 @@ func (e *kvElection) becomeLeader(token string, rev uint64) {
 	e.mu.Lock()
 	defer e.mu.Unlock()
 
+	// An acquisition that completes after Stop must not claim leadership:
+	// Stop cancels the context under this mutex before it clears the claim.
+	if e.ctx == nil || e.ctx.Err() != nil {
+		return
+	}
+
 	fromState := StateInit
 	if s := e.state.Load(); s != nil {
 		if str, ok := s.(string); ok {
